@@ -91,6 +91,29 @@ func stageResult(w *World, r *Report, rule string) {
 			if e.Kind == "store" && (strings.HasPrefix(e.Target, "local:") || strings.HasPrefix(e.Target, "*arg")) && strings.Contains(e.Val, "runStage(") {
 				recorded = true
 			}
+			// … or handed to a callback parameter whose closure (built at the go statement) stores it
+			if e.Kind == "call" && strings.HasPrefix(e.Target, "dyn:") && strings.Contains(e.Val, "runStage(") {
+				if c := callCommonOf(e.In); c != nil {
+					if prm, ok := w.Resolve(c.Value).(*ssa.Parameter); ok && prm.Parent() == cl {
+						idx := paramIdxOf(prm)
+						_, gos := stageGoroutines(s)
+						for _, g := range gos {
+							if g.Call.StaticCallee() != cl || idx >= len(g.Call.Args) {
+								continue
+							}
+							if cb := funcValue(w.Resolve(g.Call.Args[idx])); cb != nil && len(cb.Params) > 0 {
+								allInstrs(cb, func(in ssa.Instruction) {
+									if st, ok := in.(*ssa.Store); ok && w.Resolve(st.Val) == ssa.Value(cb.Params[0]) {
+										if _, isFV := st.Addr.(*ssa.FreeVar); isFV {
+											recorded = true
+										}
+									}
+								})
+							}
+						}
+					}
+				}
+			}
 		}
 		has := func(v int64) bool {
 			for _, s := range statuses {
